@@ -337,12 +337,15 @@ fn history_independence(ctx: &mut Ctx, buf: &[u8], o: &Opts) {
         c.set(c.get() + 1);
         c.get()
     });
-    if n % 32 == 0 || n % 257 < 8 {
+    let record = n % 32 == 0 || n % 257 < 8;
+    if record || buf.len() <= 64 {
         let d = outcome_digest(buf, &o.creds);
         // ... nor of whether anybody listens to the library's tracing events (a subscriber that enables
         // and formats everything): the same answers, and no panic in an argument that is only evaluated then
+        let ev0 = crate::trace_sub::events() + crate::trace_sub::spans();
         let ds = crate::trace_sub::with_subscriber(|| outcome_digest(buf, &o.creds));
         ctx.count("decoded-again-under-a-tracing-subscriber");
+        ctx.count_n("tracing-events-seen-under-the-subscriber", crate::trace_sub::events() + crate::trace_sub::spans() - ev0);
         if ds != d {
             let panicked = ds.starts_with("panic:");
             let tag = if panicked { "C01".to_string() } else if ["C02", "C04", "C09", "C10", "C17"].contains(&ctx.prop.as_str()) { ctx.prop.clone() } else { "C02".to_string() };
@@ -357,13 +360,15 @@ fn history_independence(ctx: &mut Ctx, buf: &[u8], o: &Opts) {
                 format!("with a tracing subscriber installed: {}", ds.chars().take(300).collect::<String>()),
             );
         }
-        RECENT.with(|r| {
-            let mut r = r.borrow_mut();
-            r.push((buf.to_vec(), o.creds.clone(), d));
-            if r.len() > 8 {
-                r.remove(0);
-            }
-        });
+        if record {
+            RECENT.with(|r| {
+                let mut r = r.borrow_mut();
+                r.push((buf.to_vec(), o.creds.clone(), d));
+                if r.len() > 8 {
+                    r.remove(0);
+                }
+            });
+        }
     }
     if n % 257 != 8 {
         return;
